@@ -257,6 +257,12 @@ def run_obligation(ob, src):
     ob = dict(ob, kani_args=list(ob.get("kani_args", [])) + extra) if extra else ob
     res = run_limited(kani_cmd(ob), src, ob.get("timeout", 900), ob.get("mem_gb", 12) * 2**30)
     status, detail = classify(ob, res)
+    try:  # raw verifier output of the last run of each obligation, for triage
+        os.makedirs("/var/tmp/weechess-verif-side/last", exist_ok=True)
+        with open("/var/tmp/weechess-verif-side/last/%s.log" % ob["name"], "w") as f:
+            f.write(res.get("out") or "")
+    except OSError:
+        pass
     return {"ob": ob, "status": status, "detail": detail, "res": res}
 
 
